@@ -91,6 +91,26 @@ def KL.clearExpired (s : KL V) (time : Int) : KL V :=
     let kept := s.buf.filter (fun e => time < e.exp)
     { s with buf := kept, minExp := kept.foldl (fun m e => min m e.exp) s.maxE }
 
+/-- state of the list when the `i`-th element is handed to `expiration()` inside `retain`: the elements
+before it have been filtered, the rest is untouched (this is also what `retain`'s drop guard leaves
+behind if that call panics); the cached minimum is not yet updated -/
+def KL.purgeStateAt (s : KL V) (time : Int) (i : Nat) : KL V :=
+  { s with buf := (s.buf.take i).filter (fun e => time < e.exp) ++ s.buf.drop i }
+
+/-- the states at the `expiration()` callbacks of `clear_expired(time)`, in order (none when the cached
+minimum lets the purge be skipped) -/
+def KL.purgeStates (s : KL V) (time : Int) : List (KL V) :=
+  if time < s.minExp then [] else (List.range s.buf.length).map (s.purgeStateAt time)
+
+/-- callback states of the three operation kinds: the `expiration()` calls in order, and the state
+during the binary search (whose probes are not modelled individually) -/
+def KL.insertStates (s : KL V) (e : Ent V) (time : Int) : List (KL V) × KL V :=
+  let p := s.clearExpired time
+  (s.purgeStates time ++ [p], { p with minExp := min p.minExp e.exp })
+
+def KL.queryStates (s : KL V) (time : Int) : List (KL V) × KL V :=
+  (s.purgeStates time, s.clearExpired time)
+
 def KL.insert (s : KL V) (e : Ent V) (time : Int) : KL V :=
   let s := s.clearExpired time
   { s with minExp := min s.minExp e.exp, buf := LSt.insert s.buf e }
